@@ -22,10 +22,12 @@ inline bool check_c04(const Bytes &w, unsigned flags, Outcome &o) {
   count(accepted ? "c04.parser_accepts" : "c04.parser_rejects");
   count(v.strict_ok ? "c04.ref_strict" : (v.lenient_ok ? "c04.ref_lenient_only" : "c04.ref_rejects"));
   if (v.any_pointer) count("c04.has_pointer");
+  if (!v.strict_ok) count("c04.why_not_strict." + v.reason);
+  if (!accepted) count(std::string("c04.parser_status.") + ares_strerror((int)st));
   if (accepted) {
     if (!v.lenient_ok) {
       count("c04.accepted_but_ref_cannot_decode");
-      if (flags == 0 || v.forbidden) {
+      if (flags == 0) {
         // with raw-flags the parser legitimately skips RDATA it would otherwise have to decode
         o.sig = v.forbidden ? "C04.accepted-forbidden-name" : "C04.accepted-undecodable";
         o.detail = "parser accepts, reference cannot extract: " + v.reason; return false;
@@ -216,9 +218,9 @@ inline bool check_c02(const Bytes &w, const C02Params &pr, Outcome &o) {
   const unsigned char *p = (const unsigned char *)w.data(); int alen = (int)w.size();
   // 0: the record parser with every getter, write and duplicate on success
   {
-    ares_dns_record_t *rec = (ares_dns_record_t *)0x1; ares_status_t st = ares_dns_parse(p, w.size(), pr.flags, &rec);
+    ares_dns_record_t *rec = nullptr; ares_status_t st = ares_dns_parse(p, w.size(), pr.flags, &rec);
     if (st == ARES_SUCCESS) {
-      if (rec == nullptr || rec == (ares_dns_record_t *)0x1) return c02_fail(o, "parse-success-without-result");
+      if (rec == nullptr) return c02_fail(o, "parse-success-without-result");
       RecGuard g; g.r = rec;
       std::string d = cares_dump(rec); (void)d;
       unsigned char *b = nullptr; size_t bl = 0; ares_status_t ws = ares_dns_write(rec, &b, &bl);
@@ -248,7 +250,7 @@ inline bool check_c02(const Bytes &w, const C02Params &pr, Outcome &o) {
   { struct hostent *h = nullptr; int st = ares_parse_ns_reply(p, alen, &h); if (st == ARES_SUCCESS && !h) return c02_fail(o, "ns-success-without-hostent"); if (st != ARES_SUCCESS && h) return c02_fail(o, "ns-failure-with-result"); if (h) { for (char **a = h->h_aliases; a && *a; a++) (void)strlen(*a); ares_free_hostent(h); count("c02.legacy_ns_ok"); } }
   { struct hostent *h = nullptr; unsigned char addr[16] = {10, 0, 0, 1}; int st = ares_parse_ptr_reply(p, alen, addr, (pr.cap & 1) ? 16 : 4, (pr.cap & 1) ? AF_INET6 : AF_INET, &h); if (st == ARES_SUCCESS && !h) return c02_fail(o, "ptr-success-without-hostent"); if (st != ARES_SUCCESS && h) return c02_fail(o, "ptr-failure-with-result"); if (h) { for (char **a = h->h_aliases; a && *a; a++) (void)strlen(*a); (void)strlen(h->h_name); ares_free_hostent(h); count("c02.legacy_ptr_ok"); } }
 #define LEGACY(fn, T, walk, tag) { T *out = nullptr; int st = fn(p, alen, &out); if (st != ARES_SUCCESS && out) return c02_fail(o, tag "-failure-with-result"); if (st == ARES_SUCCESS && out) { count("c02.legacy_" tag "_ok"); o.nontrivial = true; } for (T *x = out; x; x = x->next) { walk; } if (out) ares_free_data(out); }
-  LEGACY(ares_parse_caa_reply, struct ares_caa_reply, { volatile size_t l = x->plen + x->length; (void)l; if (x->prop && x->plen) { volatile unsigned char t = x->prop[x->plen - 1]; (void)t; } if (x->value && x->length) { volatile unsigned char t = x->value[x->length - 1]; (void)t; } }, "caa")
+  LEGACY(ares_parse_caa_reply, struct ares_caa_reply, { volatile size_t l = x->plength + x->length; (void)l; if (x->property && x->plength) { volatile unsigned char t = x->property[x->plength - 1]; (void)t; } if (x->value && x->length) { volatile unsigned char t = x->value[x->length - 1]; (void)t; } }, "caa")
   LEGACY(ares_parse_srv_reply, struct ares_srv_reply, { if (x->host) (void)strlen(x->host); }, "srv")
   LEGACY(ares_parse_mx_reply, struct ares_mx_reply, { if (x->host) (void)strlen(x->host); }, "mx")
   LEGACY(ares_parse_txt_reply, struct ares_txt_reply, { if (x->txt && x->length) { volatile unsigned char t = x->txt[x->length - 1]; (void)t; } }, "txt")
